@@ -171,8 +171,8 @@ class LexModel(object):
                                 neq={('p', 'cfg'): {0}})
         out = []
         for p in paths:
-            if p.end == 'cut':
-                continue
+            if p.end in ('cut', 'unreachable'):
+                continue      # 'unreachable': the buffer helper's assertion on a failed realloc (judged by C02 R2.2)
             out.append(ActionPath(val, p, self))
         if not out:
             raise sym.AnalysisIncomplete('no complete path through the action of rule %d' % val)
